@@ -1,6 +1,7 @@
 package props
 
 import (
+	"errors"
 	"fmt"
 	"reflect"
 	"sort"
@@ -26,6 +27,7 @@ func init() {
 			{Name: "byname", Run: c07Run, QuickS: 60, ThoroughS: 900},
 			{Name: "registration", Run: c07Reg, Workers: 1, QuickS: 30, ThoroughS: 120},
 			{Name: "processor-holders", Run: c07Proc, Workers: 2, QuickS: 30, ThoroughS: 60},
+			{Name: "failing-target", Run: c07Failing, Workers: 2, QuickS: 30, ThoroughS: 60},
 		},
 	})
 }
@@ -495,6 +497,106 @@ func c07Proc(c *core.Ctx) {
 			c.Report(key, "wrong-component", fmt.Sprintf("%s: F1 `x` holds %s, F2 `y` holds %s, F3 `x` holds %s, optional F4 `nobody` holds %s; want x, y, x, nothing", desc, scen.IdOf(h.F1), scen.IdOf(h.F2), scen.IdOf(h.F3), scen.IdOf(h.F4)), cs)
 		default:
 			c.Outcome("proc/ok")
+		}
+		c.Sample(map[string]any{"case": cs, "error": scen.FirstLine(o.Err)})
+	})
+}
+
+// ---- the named component exists but cannot be created
+
+type c07FailEager struct{ n string }
+
+func (t *c07FailEager) Naming() string { return t.n }
+func (t *c07FailEager) M1()            {}
+func (t *c07FailEager) Init() error    { return errors.New("the named component cannot be initialised") }
+
+type c07FailLazy struct{ c07FailEager }
+
+func (*c07FailLazy) LazyInit() {}
+
+type c07FailCase struct {
+	Lazy     bool   `json:"lazy_target"`
+	Kind     string `json:"field_kind"` // I1 ANY
+	Optional bool   `json:"optional"`
+	Sibling  int    `json:"sibling"`
+	Other    bool   `json:"another_provider_of_the_type"`
+	Desc     bool   `json:"descending_order,omitempty"`
+}
+
+// c07Failing: a by-name point whose named component is registered and assignable but fails in its
+// Init. The point can only ever receive that component: a start that succeeds must have bound it
+// (the statement allows the untouched optional field only when no such component exists or it
+// does not fit).
+func c07Failing(c *core.Ctx) {
+	gen := func(yield func(c07FailCase) bool) {
+		for _, lazy := range []bool{false, true} {
+			for _, kind := range []string{"I1", "ANY"} {
+				for _, opt := range []bool{false, true} {
+					for sib := 0; sib < 4; sib++ {
+						for _, other := range []bool{false, true} {
+							for _, desc := range []bool{false, true} {
+								if !yield(c07FailCase{lazy, kind, opt, sib, other, desc}) {
+									return
+								}
+							}
+						}
+					}
+				}
+			}
+		}
+	}
+	Cases(c, gen, func(c *core.Ctx, cs c07FailCase) {
+		ft := map[string]reflect.Type{"I1": tI1, "ANY": tAny}[cs.Kind]
+		tag := "x"
+		if cs.Optional {
+			tag += ",required=false"
+		}
+		main := reflect.StructField{Name: "F", Type: ft, Tag: reflect.StructTag(fmt.Sprintf(`wire:"%s"`, tag))}
+		var fields []reflect.StructField
+		switch cs.Sibling {
+		case 0:
+			fields = []reflect.StructField{main}
+		case 1:
+			fields = []reflect.StructField{{Name: "G", Type: tI2, Tag: `wire:",required=false"`}, main}
+		case 2:
+			fields = []reflect.StructField{main, {Name: "G", Type: tI2, Tag: `wire:",required=false"`}}
+		case 3:
+			fields = []reflect.StructField{{Name: "G", Type: tI2, Tag: `wire:"nobody,required=false"`}, main}
+		}
+		holder := reflect.New(reflect.StructOf(fields))
+		var target any = &c07FailEager{"x"}
+		if cs.Lazy {
+			target = &c07FailLazy{c07FailEager{"x"}}
+		}
+		comps := []any{target, holder.Interface()}
+		user := map[string]bool{"x": true}
+		if cs.Other {
+			comps = append(comps, scen.BuildInst(scen.Inst{Typ: "TA", Name: "y"}, 1))
+			user["y"] = true
+		}
+		var base []string
+		if cs.Desc {
+			base = []string{"y", "x"}
+		}
+		o := scen.Start(scen.StartSpec{Ch: envx.Fixed("", nil), Comps: comps, User: user, Base: base})
+		c.S.Evaluations++
+		c.S.Programs++
+		c.S.States++
+		c.S.Nontrivial++
+		c.S.Transitions += int64(o.Trace.Calls)
+		key := "C07/failing/" + core.Hash(cs)
+		got := holder.Elem().FieldByName("F").Interface()
+		switch {
+		case o.Panic != "" || o.Abort != "" || len(o.ChildPanics) > 0:
+			c.Outcome("failing-target/panic")
+			c.Report(key, "panic", fmt.Sprintf("by-name point `%s` whose named component fails in Init: start-up panicked: %s%s", tag, o.Panic, o.Abort), cs)
+		case o.Err != nil:
+			c.Outcome("failing-target/start-fails")
+		case got != target:
+			c.Outcome("failing-target/started-without-it")
+			c.Report(key, "wrong-component", fmt.Sprintf("by-name point `%s`: the component registered under that name exists and fits the field but fails in Init; start-up succeeded and the field holds %T(%v), not that component", tag, got, got), cs)
+		default:
+			c.Outcome("failing-target/bound")
 		}
 		c.Sample(map[string]any{"case": cs, "error": scen.FirstLine(o.Err)})
 	})
